@@ -115,17 +115,17 @@ func compareE2E(rec *Rec, r *runner) (string, string) {
 }
 
 func replayE2E(a *hx.Args) error {
+	recs, err := hx.ReadRecords(a.In)
+	if err != nil {
+		return err
+	}
+	// a single record is a fresh-process reproduction: it must not overwrite the trace of the run it reproduces
 	var tw *hx.TraceWriter
-	if a.Out != "" {
-		var err error
+	if a.Out != "" && len(recs) > 1 {
 		if tw, err = hx.NewTraceWriter(a.Out); err != nil {
 			return err
 		}
 		defer tw.Close()
-	}
-	recs, err := hx.ReadRecords(a.In)
-	if err != nil {
-		return err
 	}
 	runners := make([]*runner, len(recs))
 	err = hx.ReplayAll(a, func(i int, raw json.RawMessage) hx.Result {
@@ -153,9 +153,13 @@ func replayE2E(a *hx.Args) error {
 		}
 		return hx.Result{OK: true, NT: nt}
 	})
+	every := 1
+	if a.Mode != "" {
+		fmt.Sscanf(a.Mode, "%d", &every)
+	}
 	if tw != nil {
-		for _, r := range runners {
-			if r != nil {
+		for i, r := range runners {
+			if r != nil && i%every == 0 {
 				for _, l := range r.lines {
 					tw.Emit(l)
 				}
@@ -168,13 +172,13 @@ func replayE2E(a *hx.Args) error {
 // ---------------------------------------------------------------------------------------------------
 // code -> spec recorder: wider scenarios and more forgeries than the TLC configurations enumerate
 
-var recVersions = []string{"1", "2", "3", "6", "7", "9", "10", "11", "12"}
+var recVersions = []string{"1", "2", "3", "4", "5", "6", "7", "8", "9", "10", "11", "12", "org.matrix.msc3667", "org.matrix.msc3787", "org.matrix.hydra.11"}
 
 func pickS(rng *rand.Rand, xs ...string) string { return xs[rng.Intn(len(xs))] }
 
 func randomPlan(rng *rand.Rand, run int) Plan {
 	sc := Sc{Ver: recVersions[rng.Intn(len(recVersions))], RV: "known", InRoom: rng.Intn(5) != 0, JR: "public", Mem: "none", Allow: []string{},
-		APL: "ok", AHere: true, TB: "ok", QErr: "none", Known: true, UQ: "ok", Stripped: "none"}
+		APL: "ok", AHere: true, TB: "ok", QErr: "none", Known: true, UQ: "ok", Stripped: "none", Extra: "none", Env: "ok", FB: 9}
 	flow := pickS(rng, "join", "join", "join", "leave", "invite")
 	switch flow {
 	case "join":
@@ -184,6 +188,7 @@ func randomPlan(rng *rand.Rand, run int) Plan {
 		}
 		sc.JR = jrs[rng.Intn(len(jrs))]
 		sc.Mem = pickS(rng, "none", "none", "leave", "invite", "join", "ban")
+		sc.Retry = rng.Intn(3) == 0
 		sc.Pending = sc.Mem == "invite"
 		if sc.JR == "restricted" || sc.JR == "knock_restricted" {
 			classes := []string{"nonres", "info_err", "nouser", "empty", "listedB", "listed", "listed", "listed2", "othertype", "badid"}
@@ -199,7 +204,7 @@ func randomPlan(rng *rand.Rand, run int) Plan {
 	case "leave":
 		sc.Mem = pickS(rng, "join", "invite", "ban", "leave", "none")
 	case "invite":
-		sc.Stripped = pickS(rng, "none", "given")
+		sc.Stripped = pickS(rng, "none", "given", "empty")
 		sc.Known = rng.Intn(2) == 0
 		if sc.Known {
 			sc.Mem = pickS(rng, "none", "leave", "invite", "join", "ban")
